@@ -174,7 +174,7 @@ registry! {
     S_i8: i8: zero, S_i64: i64: zero, S_f32: f32: zero, S_f64: f64: zero, S_bool: bool: zero, S_char: char: zero,
     S_nz16: NonZeroU16: zero, S_nz64: NonZeroI64: zero, S_unit: (): zero,
     S_P1: P1: zero, S_Z0: Z0: zero, S_Z16: Z16: zero, S_P64: P64: zero, S_NT: NT: zero, S_T3: T3: zero, S_ZN: ZN: zero, S_EZ: EZ: zero, S_EU: EU: zero,
-    S_tup: (u16, u16): zero, S_arr: [u32; 3]: zero, S_arr0: [u64; 0]: zero, S_rt: RangeTo<u8>: zero, S_zg: ZG<u32>: zero,
+    S_tup: (u16, u16): zero, S_arr: [u32; 3]: zero, S_arr0: [u64; 0]: zero, S_rt: RangeTo<u8>: zero, S_rt3: RangeTo<T3>: zero, S_rti6: core::ops::RangeToInclusive<[u16; 3]>: zero, S_zg: ZG<u32>: zero, S_za: ZA: zero,
     S_String: String: deep, S_BoxStr: Box<str>: deep, S_VecU8: Vec<u8>: deep, S_VecStr: Vec<String>: deep, S_D1: D1: deep, S_E1: E1: deep,
     S_OptU32: Option<u32>: deep, S_G1: G1<Vec<u8>>: deep, S_ArrS: [String; 2]: deep,
 }
